@@ -111,6 +111,12 @@ func (e *SpecEnv) readsArgs(sf *SpecFn, n *SpecEnv) (sorts, terms []string) {
 		if a, ok := isArrayT(t); ok {
 			t = a.Elem()
 		}
+		if mt, ok := types.Unalias(t).Underlying().(*types.Map); ok {
+			// `reads map[K]V`: the key-set and value components of maps of that type (the map reference cells follow below)
+			hk, vk := fc.mapComps(mt)
+			sorts = append(sorts, fc.comps[hk], fc.comps[vk])
+			terms = append(terms, fc.comp(e.cur, hk, fc.comps[hk]), fc.comp(e.cur, vk, fc.comps[vk]))
+		}
 		if !isLeaf(t) {
 			e.fail("uninterp %s: `reads %s` must name a leaf type (a struct is read through the types of its fields)", sf.Name, name)
 		}
@@ -162,7 +168,7 @@ func (e *SpecEnv) readsFrameArgs(name, retSort string, heapSorts, cur []string, 
 		}
 		same = false
 		if strings.HasPrefix(heapSorts[i], "(Array Ptr ") {
-			prem = append(prem, fmt.Sprintf("(forall ((p Ptr)) (! (=> (< (root p) %s) (= (select %s p) (select %s p))) :pattern ((select %s p))))", w0, cur[i], ent[i], cur[i]))
+			prem = append(prem, fmt.Sprintf("(forall ((p Ptr)) (! (=> (and (< (root p) %s) (>= (root p) 0)) (= (select %s p) (select %s p))) :pattern ((select %s p))))", w0, cur[i], ent[i], cur[i])) // roots are allocation ids >= 0: same range as the frame condition (frame.go), so that `uses blockframe` discharges this premise
 		} else {
 			prem = append(prem, eq(cur[i], ent[i]))
 		}
